@@ -9,6 +9,11 @@ CHECKS = {
     text="Exploration: the monitor observes prql_to_tokens on every string up to a stated length over alphabets of lexically significant characters (exhaustive within that space), plus random fragment sequences and corpus prefixes. Held means no tiling/re-lex violation other than the listed known findings was observed on those executions.",
     note="Trusts the worker's monitor code (harness/pv-worker/src/c17.rs) and Rust's str::is_char_boundary; strings longer than the exhaustive bound are only sampled.",
     design="§3 C17"),
+ "C18": dict(
+    technique="runtime differential monitor: every program compiled under the full (option x header) matrix of 12 dialects + absent + sql.any + unknown; outputs compared byte-for-byte against the per-dialect baseline",
+    text="Exploration: for each header-free program the real compiler is run on all judged (option, header) cells; held means option-over-header-over-generic precedence, unknown-name rejection and target-independent resolver acceptance were observed on every cell of every program.",
+    note="Prepending a `prql target:` header is assumed to be a pure addition for programs that parse both with and without it (others are skipped and counted). Signature comment off; errors compared on (reason, hints).",
+    design="§3 C18"),
 }
 PENDING_REASON = "check not yet built in this revision of /verif (planned, see DESIGN.md §3); not claimed until its monitor exists"
 
